@@ -26,7 +26,7 @@ CHECKS = {
    note="Message texts are not compared. Two genuine divergences are recorded as known findings (blank between adjacent pattern literals; unoptimised resolver needing a larger budget), each recognised by an input-side classification, every other difference is a violation."),
  "C09": dict(level="model_checking", design="DESIGN.md §4 C09",
    technique="exhaustive enumeration of programs x budget rows on the real resolver loop; monotonicity relation between runs",
-   text="Every program of the C02 value-dependent and directed families, the skeleton grid (chains needing up to 14 passes, with and without an oscillator), asm-block macros with local labels and #assert programs is assembled under a row of budgets (quick {1,2,3,4,5,10,11,30}, thorough 1..31): a success at N must recur with identical bits and symbols at every larger budget, the reported number of passes never exceeds the budget, failures are clean.",
+   text="Every program of the C02 value-dependent and directed families, the skeleton grid (chains needing up to 14 passes, with and without an oscillator), asm-block macros with local labels, #assert programs, every family again inside a bank at 2^64 and a grid of late-zero-operand programs at small / wide / negative bank addresses is assembled under a row of budgets (quick {1,2,3,4,5,10,11,30}, thorough 1..31): a success at N must recur with identical bits and symbols at every larger budget, the reported number of passes never exceeds the budget, failures are clean.",
    note="The implementation is compared with itself across budgets; states = distinct (program, outcome row), transitions = passes executed. Two defects found by this check were repaired (fix: 7b38a8a, bde47c9)."),
  "C14": dict(level="model_checking", design="DESIGN.md §4 C14, §3.6",
    technique="exhaustive enumeration of path strings, include graphs x #once subsets and inclusion-function ranges against reference models; real binary under strace for confinement (thorough)",
@@ -50,8 +50,8 @@ CHECKS = {
    note="Line breaks, digit widths and record sizes are unconstrained (not part of decoding). Intel HEX blocks not starting on the address unit are Unspecified. Two defects found by this check were repaired (fix: 650966a, cf1bcbc)."),
  "C12": dict(level="exploration", design="DESIGN.md §4 C12",
    technique="exhaustive enumeration of programs x listing parameters; row parsers compared with real spans, bits and an independent layout",
-   text="All item sequences up to a length over instruction/label/constant/data/#res/#align/#addr/#bank items in three configurations (flat, bit-granular banks, output + non-output bank), also split into an included file and with non-ASCII comment lines, are assembled and listed in 55 listing formats (annotated 7 bases x 5 groups, tcgame, addrspan, symbols, mesen-mlb); parsed rows must name each emitted item once, in output order, with the right position, address, digits (= the bits at that position), source text/location; symbol tables must list exactly the non-suppressed symbols with their final values.",
-   note="Conventions without a golden file (column radix, addrspan origin, digit alphabets of bases 32..128) are calibrated once from a one-item program, so a consistent change of convention is not an alarm. Order among rows sharing an output position is not compared. Two defects found were repaired (fix: c8d8928, 5976eaf)."),
+   text="All item sequences up to a length over instruction/label/constant/data/#res/#align/#addr/#bank items in four configurations (flat, bit-granular banks, output + non-output bank, a bank at logical address 2^64+0x20 + a non-output bank), also split into an included file and with non-ASCII comment lines, are assembled and listed in 55 listing formats (annotated 7 bases x 5 groups, tcgame, addrspan, symbols, mesen-mlb); parsed rows must name each emitted item once, in output order, with the right position, address, digits (= the bits at that position), source text/location; symbol tables must list exactly the non-suppressed symbols with their final values.",
+   note="Conventions without a golden file (column radix, addrspan origin, digit alphabets of bases 32..128) are calibrated once from a one-item program, so a consistent change of convention is not an alarm. Order among rows sharing an output position is not compared. Four defects found were repaired (fix: c8d8928, 5976eaf, 30e83cb, 43417c4)."),
  "C13": dict(level="exploration", design="DESIGN.md §4 C13",
    technique="exhaustive enumeration of (valid program, fault kind, fault position, file layout, multi-byte decoration); location oracle computed independently from byte ranges",
    text="Every valid base program up to a length x every fault kind x every fault line x one-file/included-file layouts x 17 decorations (2/3/4-byte characters before, on and after the fault line, TABs, CR LF line endings): every located message (recursively) must name an input file and a byte range on character boundaries inside it; every printed '--> file:line:col' must equal the 1-based line and character column recomputed from the byte range; the first error must lie on the faulty line of the right file. Uses hook H1 (Report::verif_messages).",
